@@ -311,7 +311,9 @@ namespace ip {
 
 		// this was initiated at least one 3-way handshake ago.
 		// we can pick it up and consider it connected
-		if (m_remote_endpoint) *m_remote_endpoint = c->ep[0];
+		// report the connecting end the way this end sees it (i.e. through any
+		// NAT on its path), which is also what remote_endpoint() returns
+		if (m_remote_endpoint) *m_remote_endpoint = c->visible_ep[0];
 		m_remote_endpoint = nullptr;
 
 		boost::system::error_code ec;
